@@ -260,6 +260,7 @@ func inReqRange(c *an.Ctx, v ssa.Value, cmps []an.Cmp, depth int) bool {
 	if depth > 6 {
 		return false
 	}
+	v = an.Strip(v) // also sees through a field of a local parameter/result struct
 	if k, isC := an.ConstInt(v); isC && k == 0 {
 		return true
 	}
@@ -342,7 +343,7 @@ func c04range(c *an.Ctx) {
 		an.Instrs(fn, func(in ssa.Instruction) {
 			if st, ok := in.(*ssa.Store); ok {
 				if fa, ok := st.Addr.(*ssa.FieldAddr); ok && an.FieldOf(fa) == defF {
-					use, qty = in, st.Val
+					use, qty = in, an.Strip(st.Val)
 				}
 			}
 		})
